@@ -55,7 +55,7 @@ PROPS = {
     'C16': {
         'engine': 'e3', 'module': 'gnpysim.e3_planning',
         'tiers': {
-            'quick': {'tasks': 32, 'max_examples': 12, 'step_count': 6, 'shrink_seconds': 60, 'task_timeout': 1500},
+            'quick': {'tasks': 32, 'max_examples': 16, 'step_count': 6, 'shrink_seconds': 60, 'task_timeout': 1500},
             'thorough': {'tasks': 256, 'max_examples': 60, 'step_count': 10, 'shrink_seconds': 400,
                          'task_timeout': 7000},
         },
@@ -64,7 +64,7 @@ PROPS = {
     'C13': {
         'engine': 'e3', 'module': 'gnpysim.e3_planning',
         'tiers': {
-            'quick': {'tasks': 32, 'max_examples': 12, 'step_count': 5, 'shrink_seconds': 60, 'task_timeout': 1500},
+            'quick': {'tasks': 32, 'max_examples': 20, 'step_count': 5, 'shrink_seconds': 60, 'task_timeout': 1500},
             'thorough': {'tasks': 256, 'max_examples': 60, 'step_count': 8, 'shrink_seconds': 400,
                          'task_timeout': 7000},
         },
@@ -76,7 +76,7 @@ PROPS = {
     'C19': {
         'engine': 'e3', 'module': 'gnpysim.e3_planning',
         'tiers': {
-            'quick': {'tasks': 32, 'max_examples': 14, 'step_count': 6, 'shrink_seconds': 60, 'task_timeout': 1500},
+            'quick': {'tasks': 32, 'max_examples': 18, 'step_count': 6, 'shrink_seconds': 60, 'task_timeout': 1500},
             'thorough': {'tasks': 256, 'max_examples': 70, 'step_count': 10, 'shrink_seconds': 400,
                          'task_timeout': 7000},
         },
@@ -85,7 +85,7 @@ PROPS = {
     'C17': {
         'engine': 'e4', 'module': 'gnpysim.e4_design',
         'tiers': {
-            'quick': {'tasks': 32, 'max_examples': 14, 'step_count': 8, 'shrink_seconds': 60, 'task_timeout': 1500},
+            'quick': {'tasks': 32, 'max_examples': 20, 'step_count': 8, 'shrink_seconds': 60, 'task_timeout': 1500},
             'thorough': {'tasks': 256, 'max_examples': 70, 'step_count': 12, 'shrink_seconds': 400,
                          'task_timeout': 7000},
         },
